@@ -126,8 +126,10 @@ def run(repo: Repo, sim: str, symbols=("AAA-USDT", "BBB-USDT"), minutes=6, timef
         events.append(("fix", po, co))
         # the normalised candle keeps the timestamp (so later events can be attributed to a minute); its cells are fresh atoms
         # whose names carry where it comes from
-        out = Arr([cur.items[0]] + [R.atom(f"fix<{co[0]}.{co[1]}|{po[0]}.{po[1]}>.{x}") for x in "ochlv"])
-        return out
+        # like the real function the recorder edits the candle it was given IN PLACE and returns it: whoever holds a view of
+        # that row (the input array, a slice of it) sees the normalised candle
+        cur.items[1:6] = [R.atom(f"fix<{co[0]}.{co[1]}|{po[0]}.{po[1]}>.{x}") for x in "ochlv"]
+        return cur
     stubs[f"{BT}:_get_fixed_jumped_candle"] = rec_fix
     stubs[f"{BT}:_prepare_times_before_simulation"] = lambda it, a, k: events.append(("prepare", "times"))
     stubs[f"{BT}:_prepare_routes"] = lambda it, a, k: events.append(("prepare", "routes"))
